@@ -352,9 +352,9 @@ def _case_worker(task):
     if mode == "typed":
         # a same-dtype argument whose shape differs from the declared type in exactly one way
         k = idx - 3 * 10**6
-        grid = TY.all_cases()
+        grid = TY.all_cases() + TY.all_optseq_cases()
         case = grid[k] if k < len(grid) else TY.gen_case(rng)
-        st, m = TY.build_case(case)
+        st, m = TY.build_any(case)
         out = {"mode": "typed", "case": case, "status": st}
         if st == "ok":
             out["bad"] = TY.judge_built(m)
@@ -388,6 +388,12 @@ def _case_worker(task):
             out["named"] = strip_ops(L.proto_to_named(m.graph))
             out["fnamed"] = [strip_ops(L.func_to_named(f)) for f in m.functions]
             out["walker"] = L.walk_named(L.proto_to_named(m.graph))
+            if mode == "oracle" and not out["bad"] and rng.random() < 0.3:
+                # the same program realised once and built several times over the SAME Vars, an Identity of another
+                # opset module on the first output (rising / falling / back to none)
+                tops = rng.choice([[None, 19], [None, 21, None], [21, None], [18, 21], [None, 20, 18], [17, 19, 21]])
+                out["hist_tops"] = tops
+                out["hist_recs"] = HI.spec_history(spec, tops, custom_keys=custom_keys(spec))
         if mode == "naming":
             try:
                 tree, real = extract_tree(spec)
@@ -483,13 +489,98 @@ def judge_histories(ck, hist_results):
     ck.cov["histories"] = st
 
 
+def corr_inline_check(ck, drv):
+    """tie H for Model/InlineCheck.lean (`accepts`, through it Types.subtype / Shape.le / Natural.le): the real
+    `inline(model)(args)` - raises its TypeError or returns - against the model on the whole shape-boundary grid
+    (positional, keyword, second input; same and different element types)."""
+    import importlib
+
+    import numpy as np
+    import spox
+    from translator import dtypes as DTT
+
+    classes = DTT.generate()["classes"]
+    op = importlib.import_module("spox.opset.ai.onnx.v17")
+
+    def ty_json(t):
+        if t is None:
+            return None
+        return [classes.index(t.dtype.type), None if t.shape is None else list(t.shape)]
+
+    reqs, reals, cases = [], [], []
+    skipped = 0
+    grid = [c for c in TY.all_cases() if c["site"] in ("inline_pos", "inline_kw", "inline_second")]
+    for c in grid:
+        for adt in ("f32", "f64") if str(c["tag"]).startswith("same") or c["site"] == "inline_pos" else ("f32",):
+            try:
+                args = {}
+                a = TY.make_arg(c["arg"][0], c["arg"][1], adt, op, args)
+                second = c["site"] == "inline_second"
+                m = TY.make_model(c["decl"], "f32", second=second)
+                decls = [[classes.index(np.float32), [2, 3]], [classes.index(np.float32), list(c["decl"])]] if second \
+                    else [[classes.index(np.float32), list(c["decl"])]]
+                if second:
+                    x0 = spox.argument(spox.Tensor(np.float32, (2, 3)))
+                    call_args, call_kw, atypes = (x0, a), {}, [x0.type, a.type]
+                elif c["site"] == "inline_kw":
+                    call_args, call_kw, atypes = (), {"a": a}, [a.type]
+                else:
+                    call_args, call_kw, atypes = (a,), {}, [a.type]
+            except Exception:  # noqa: BLE001 - the argument itself cannot be made (not the check under test)
+                skipped += 1
+                continue
+            try:
+                spox.inline(m)(*call_args, **call_kw)
+                real = True
+            except TypeError as e:
+                if "to inlined model got type" not in str(e):
+                    raise
+                real = False
+            reqs.append({"k": "inline_check", "decls": decls, "args": [ty_json(t) for t in atypes]})
+            reals.append(real)
+            cases.append((c, adt))
+    outs = drv.ask_many("C02", reqs)
+    mism = 0
+    for (c, adt), real, o in zip(cases, reals, outs):
+        ck.count(None)
+        if o.get("accept") is not real:
+            mism += 1
+            if mism <= 3:
+                ck.broken("correspondence", "C02 inline argument check (InlineCheck.accepts) vs real inline()",
+                          f"case={json.dumps(c)} arg_dtype={adt} model={o} real_accepts={real}")
+    ck.cov["inline_argument_check"] = {"calls": len(reqs), "accepted": sum(reals), "refused": len(reals) - sum(reals),
+                                       "mismatches": mism, "skipped": skipped}
+
+
+def judge_spec_histories(ck, rs):
+    st = {"programs": len(rs), "builds": 0, "returned": 0}
+    best = {}
+    for r in rs:
+        for rec in r["hist_recs"]:
+            st["builds"] += 1
+            if rec["status"] != "ok":
+                continue
+            st["returned"] += 1
+            ck.count(("spec-hist", json.dumps(r["spec"], sort_keys=True), rec["bi"]) if rec["bi"] > 0 else None)
+            if rec["bad"]:
+                key = hist_key([tuple(b) for b in rec["bad"]])
+                cur = best.get(key)
+                if cur is None or len(json.dumps(r["spec"])) < len(json.dumps(cur[0]["spec"])):
+                    best[key] = (r, rec)
+    for key, (r, rec) in list(best.items())[:3]:
+        ck.failure(key, f"build #{rec['bi']} (companions {r['hist_tops']}) over the Vars of ONE realisation of a program "
+                        f"returned a model that fails: {rec['bad'][:2]}",
+                   {"spec_hist": {"spec": r["spec"], "tops": r["hist_tops"]}})
+    ck.cov["program_histories"] = st
+
+
 def judge_typed(ck, typed_results):
     """Verdicts of the shape-boundary calls: raised, or returned a model every judge accepts."""
     st = {"cases": len(typed_results), "raised": 0, "returned_valid": 0, "by_site": {}, "well_typed_refused": 0}
     best = {}
     for r in typed_results:
         case = r["case"]
-        site = st["by_site"].setdefault(case["site"], {"raised": 0, "returned": 0})
+        site = st["by_site"].setdefault(case.get("site") or ("optseq:" + case["route"]), {"raised": 0, "returned": 0})
         if r["status"] == "err":
             st["raised"] += 1
             site["raised"] += 1
@@ -506,6 +597,11 @@ def judge_typed(ck, typed_results):
         else:
             st["returned_valid"] += 1
     for key, (case, bad) in list(best.items())[:4]:
+        if case.get("kind") == "optseq":
+            ck.failure(key, f"an Optional/Sequence-typed value ({case['make']}) routed through {case['route']} "
+                            f"(module v{case.get('ver')}, companion {case.get('comp')}) was built into a model that "
+                            f"fails: {bad[:2]}", {"typed": case})
+            continue
         ck.failure(key, f"a call whose argument shape {case['arg']} does not fit the declared {case['decl']} "
                         f"({case.get('tag')}, site {case['site']}) was built into a model that fails: {bad[:2]}",
                    {"typed": case})
@@ -690,11 +786,20 @@ def run(ck: core.Check):
             ck.broken("correspondence", "C02 ScopeSpace not observable",
                       f"{type(e).__name__}: {e} (spox._scope.ScopeSpace attributes/signatures changed?)")
 
+    # (d) the argument check of inlined models on the shape-boundary grid
+    if drv is not None:
+        try:
+            with warnings.catch_warnings():
+                warnings.simplefilter("ignore")
+                corr_inline_check(ck, drv)
+        except Exception as e:  # noqa: BLE001
+            ck.broken("correspondence", "C02 inline argument check not observable", f"{type(e).__name__}: {e}")
+
     # generated programs (oracle on all; naming correspondence on the 'naming' slice)
     n_oracle = pick(1600, 12000)
     n_naming = pick(500, 5000)
     n_hist = pick(260, 3000)
-    n_typed = len(TY.all_cases()) + pick(250, 3000)
+    n_typed = len(TY.all_cases()) + len(TY.all_optseq_cases()) + pick(200, 3000)
     tasks = ([(ck.seed, i, "oracle") for i in range(n_oracle)] + [(ck.seed, 10**6 + i, "naming") for i in range(n_naming)]
              + [(ck.seed, 2 * 10**6 + i, "hist") for i in range(n_hist)]
              + [(ck.seed, 3 * 10**6 + i, "typed") for i in range(n_typed)])
@@ -730,6 +835,7 @@ def run(ck: core.Check):
     typed_results = [r for r in results if r.get("mode") == "typed"]
     results = [r for r in results if r.get("mode") not in ("hist", "typed")]
     judge_histories(ck, hist_results)
+    judge_spec_histories(ck, [r for r in results if r.get("hist_recs")])
     judge_typed(ck, typed_results)
     dist = {"returned": 0, "raised": {}, "if": 0, "loop": 0, "inline": 0, "call": 0, "custom_ops": 0, "max_depth": 0,
             "mixed_versions": 0, "drop_true": 0}
@@ -879,8 +985,18 @@ def replay(ck: core.Check, doc) -> bool:
                 print(f"build #{rec['bi']}: {k}: {d}")
             failing |= bool(rec["bad"])
         return failing
+    if case.get("spec_hist") is not None:
+        sh = case["spec_hist"]
+        failing = False
+        for rec in HI.spec_history(sh["spec"], sh["tops"], custom_keys=custom_keys(sh["spec"])):
+            if rec["status"] == "err":
+                print(f"build #{rec['bi']} raised:", rec["err"])
+            for k, d in rec["bad"]:
+                print(f"build #{rec['bi']}: {k}: {d}")
+            failing |= bool(rec["bad"])
+        return failing
     if case.get("typed") is not None:
-        st, m = TY.build_case(case["typed"])
+        st, m = TY.build_any(case["typed"])
         if st == "err":
             print("build raised:", m)
             return False
